@@ -6,6 +6,11 @@ use crate::scalar::Scalar;
 use sliding_features::View;
 
 pub mod c01;
+pub mod c02;
+pub mod c03;
+pub mod c04;
+pub mod c05;
+pub mod c06;
 pub mod c08;
 pub mod c14;
 pub mod c15;
@@ -15,6 +20,11 @@ pub mod c18;
 pub fn by_id(id: &str) -> Option<Box<dyn Monitor>> {
     Some(match id {
         "C01" => Box::new(c01::C01),
+        "C02" => Box::new(c02::C02),
+        "C03" => Box::new(c03::C03),
+        "C04" => Box::new(c04::C04),
+        "C05" => Box::new(c05::C05),
+        "C06" => Box::new(c06::C06),
         "C08" => Box::new(c08::C08),
         "C14" => Box::new(c14::C14),
         "C15" => Box::new(c15::C15),
